@@ -47,6 +47,16 @@ def g3() -> Any:
     return _G3
 
 
+_G4 = None
+
+
+def g4() -> Any:
+    global _G4
+    if _G4 is None:
+        _G4 = ControlledGate(RYGate(), 3)
+    return _G4
+
+
 def tag(i: int) -> float:
     return TAG0 + i * TAGSTEP
 
@@ -63,6 +73,8 @@ def build(n: int, ops: list) -> Circuit:
                 c.append_gate(CRYGate(), loc, [tag(i)])
             elif len(loc) == 3:
                 c.append_gate(g3(), loc, [tag(i)])
+            elif len(loc) == 4:
+                c.append_gate(g4(), loc, [tag(i)])
             else:
                 raise ValueError(op)
         elif k == 'b':
